@@ -114,6 +114,23 @@ pub fn check_stream(bytes: &[u8], kind: &str, exp: Option<&Expect>, obs: &mut Ob
                         }
                     }
                 }
+                b"stts" | b"stsc" | b"stsz" | b"stco" | b"stss" | b"stsd" | b"dref" | b"meta" => {
+                    // FullBox(version 0, flags 0)
+                    if p.len() < 4 || p[..4] != [0, 0, 0, 0] {
+                        dev.push(format!("{}: version/flags not 0", n.typ_str()));
+                    }
+                }
+                b"ctts" => {
+                    if p.len() < 4 || p[0] > 1 || p[1..4] != [0, 0, 0] {
+                        dev.push("ctts: version not 0/1 or flags not 0".into());
+                    }
+                }
+                b"data" if path.contains("/ilst/") => {
+                    // iTunes data box: type indicator (1 = UTF-8) and locale 0
+                    if p.len() < 8 || p[..4] != [0, 0, 0, 1] || p[4..8] != [0, 0, 0, 0] {
+                        dev.push("ilst data: type indicator not UTF-8 (1) or locale not 0".into());
+                    }
+                }
                 b"tfhd" | b"tfdt" | b"trun" => {}
                 _ => {}
             }
